@@ -29,6 +29,7 @@ const (
 	emLit                         // any composite literal of the given type
 	emReturnFalse                 // return false
 	emReturnIdent                 // return <ident named name> as first result
+	emAppendIdent                 // append(xs, <ident named name>)
 )
 
 type emitSel struct {
@@ -98,7 +99,7 @@ func findEmissions(fn *Func, sel emitSel) []ast.Node {
 			return false
 		}
 		switch sel.kind {
-		case emAppendCall, emAppendLit:
+		case emAppendCall, emAppendLit, emAppendIdent:
 			call, ok := n.(*ast.CallExpr)
 			if !ok || !isBuiltinCall(info, call, "append") {
 				return true
@@ -122,6 +123,11 @@ func findEmissions(fn *Func, sel emitSel) []ast.Node {
 				}
 				if sel.kind == emAppendLit && litMatches(info, a, sel) {
 					out = append(out, call)
+				}
+				if sel.kind == emAppendIdent {
+					if id, ok := ast.Unparen(a).(*ast.Ident); ok && id.Name == sel.name {
+						out = append(out, call)
+					}
 				}
 			}
 		case emLit:
@@ -224,6 +230,7 @@ const (
 	gDomAssign                  // dominated by an assignment <…>.name = <rhs text>
 	gNonNilVar                  // the variable/path named `name` is proven non-nil (P5 engine)
 	gDomCall                    // dominated by a call of function `name`
+	gVia                        // every path from the success edge of sub[0] to the emission crosses an assignment to <…>.name
 )
 
 type guard struct {
@@ -234,22 +241,23 @@ type guard struct {
 	sub  []guard
 }
 
-func gc(name string) guard          { return guard{kind: gCall, name: name, pol: true} }
-func gcNot(name string) guard       { return guard{kind: gCall, name: name, pol: false} }
-func gf(name string) guard          { return guard{kind: gField, name: name, pol: true} }
-func gfNot(name string) guard       { return guard{kind: gField, name: name, pol: false} }
-func gNonNil(name string) guard     { return guard{kind: gNil, name: name, pol: false} }
-func gIsNil(name string) guard      { return guard{kind: gNil, name: name, pol: true} }
-func gOk(name string) guard         { return guard{kind: gOkLookup, name: name, pol: true} }
-func gNotOk(name string) guard      { return guard{kind: gOkLookup, name: name, pol: false} }
-func gcmp(text string) guard        { return guard{kind: gCmp, name: text, pol: true} }
-func gcmpNot(text string) guard     { return guard{kind: gCmp, name: text, pol: false} }
-func gany(gs ...guard) guard        { return guard{kind: gAny, sub: gs} }
-func grange(name string) guard      { return guard{kind: gInRange, name: name} }
-func gprefix() guard                { return guard{kind: gHasPrefix, pol: true} }
-func gassign(lhs, rhs string) guard { return guard{kind: gDomAssign, name: lhs, rhs: rhs} }
-func gvarNonNil(name string) guard  { return guard{kind: gNonNilVar, name: name} }
-func gdomcall(name string) guard    { return guard{kind: gDomCall, name: name} }
+func gc(name string) guard              { return guard{kind: gCall, name: name, pol: true} }
+func gcNot(name string) guard           { return guard{kind: gCall, name: name, pol: false} }
+func gf(name string) guard              { return guard{kind: gField, name: name, pol: true} }
+func gfNot(name string) guard           { return guard{kind: gField, name: name, pol: false} }
+func gNonNil(name string) guard         { return guard{kind: gNil, name: name, pol: false} }
+func gIsNil(name string) guard          { return guard{kind: gNil, name: name, pol: true} }
+func gOk(name string) guard             { return guard{kind: gOkLookup, name: name, pol: true} }
+func gNotOk(name string) guard          { return guard{kind: gOkLookup, name: name, pol: false} }
+func gcmp(text string) guard            { return guard{kind: gCmp, name: text, pol: true} }
+func gcmpNot(text string) guard         { return guard{kind: gCmp, name: text, pol: false} }
+func gany(gs ...guard) guard            { return guard{kind: gAny, sub: gs} }
+func grange(name string) guard          { return guard{kind: gInRange, name: name} }
+func gprefix() guard                    { return guard{kind: gHasPrefix, pol: true} }
+func gassign(lhs, rhs string) guard     { return guard{kind: gDomAssign, name: lhs, rhs: rhs} }
+func gvarNonNil(name string) guard      { return guard{kind: gNonNilVar, name: name} }
+func gvia(from guard, lhs string) guard { return guard{kind: gVia, name: lhs, sub: []guard{from}} }
+func gdomcall(name string) guard        { return guard{kind: gDomCall, name: name} }
 
 func (g guard) String() string {
 	p := ""
@@ -280,6 +288,8 @@ func (g guard) String() string {
 		return g.name + " != nil on every path"
 	case gDomCall:
 		return "after " + g.name + "(…)"
+	case gVia:
+		return "from " + g.sub[0].String() + " only via an assignment to " + g.name
 	case gAny:
 		var s []string
 		for _, x := range g.sub {
@@ -459,6 +469,46 @@ func guardHolds(p5c *p5, fn *Func, at ast.Node, g guard) bool {
 			return true
 		})
 		return found
+	case gVia:
+		// find condition blocks whose success edge establishes sub[0]; from each, search
+		// forward to `at` avoiding assignments to <…>.name
+		g0 := g.sub[0]
+		cfgG := fn.CFG()
+		atNode := fn.CFGNodeOf(at)
+		for _, b := range cfgG.Blocks {
+			if len(b.Succs) != 2 || len(b.Nodes) == 0 {
+				continue
+			}
+			cond, ok := b.Nodes[len(b.Nodes)-1].(ast.Expr)
+			if !ok {
+				continue
+			}
+			for k := 0; k < 2; k++ {
+				f := decompose(cond, k == 0, nil)
+				if !f.Holds(func(a *Atom) bool { return atomMatches(fn, a, g0) }) {
+					continue
+				}
+				reached := false
+				cfgForward(fn, b.Succs[k], 0, func(n ast.Node) bool {
+					if as, ok := n.(*ast.AssignStmt); ok {
+						for _, l := range as.Lhs {
+							if strings.HasSuffix(exprStr(l), g.name) {
+								return true
+							}
+						}
+					}
+					if n == atNode {
+						reached = true
+						return true
+					}
+					return false
+				})
+				if reached {
+					return false
+				}
+			}
+		}
+		return true
 	case gDomCall:
 		found := false
 		ast.Inspect(fn.Body, func(n ast.Node) bool {
@@ -535,8 +585,9 @@ func safeAtom(fn *Func, a *Atom) bool {
 		o := info.ObjectOf(x)
 		for _, asn := range fn.Assignments(o) {
 			if s, ok := asn.(*ast.AssignStmt); ok && len(s.Rhs) == 1 {
-				if _, isTA := ast.Unparen(s.Rhs[0]).(*ast.TypeAssertExpr); isTA {
-					return true
+				switch ast.Unparen(s.Rhs[0]).(type) {
+				case *ast.TypeAssertExpr, *ast.CallExpr:
+					return true // ok of a type assertion / of a lookup helper's result
 				}
 			}
 		}
@@ -561,13 +612,17 @@ func runRows(prop string) func(p *Prog, r *Report) {
 				if !strings.HasSuffix(fn.Pkg.PkgPath, rw.pkg) {
 					continue
 				}
-				if rw.fn != "" && bareFuncName(fn) != rw.fn {
+				root := fn
+				for root.Parent != nil {
+					root = root.Parent
+				}
+				if rw.fn != "" && bareFuncName(root) != rw.fn {
 					continue
 				}
 				if rw.recv != "" {
 					ok := false
-					if fn.Obj != nil {
-						if sig := fn.Obj.Type().(*types.Signature); sig.Recv() != nil {
+					if root.Obj != nil {
+						if sig := root.Obj.Type().(*types.Signature); sig.Recv() != nil {
 							if n := namedOf(sig.Recv().Type()); n != nil && n.Obj().Name() == rw.recv {
 								ok = true
 							}
